@@ -438,9 +438,14 @@ func c05Round(rep *verifkit.Report, round int, loadDur time.Duration) {
 				resp, qerr := sysQuery(in, src, ci%4 == 3, name, qt, 8*time.Second)
 				busyAfter := adminBusy.Load() > 0
 				switch {
-				case qerr != nil && (strings.Contains(qerr.Error(), "timeout") || strings.Contains(qerr.Error(), "connection refused") || strings.Contains(qerr.Error(), "reset") || strings.Contains(qerr.Error(), "EOF")):
+				case qerr != nil && !strings.HasPrefix(qerr.Error(), "dns:"):
+					// Transport-level failures (time-out, reset, the client's
+					// own socket errors such as ephemeral-port exhaustion) say
+					// nothing about the form of a reply; they are counted and
+					// judged only through the progress probe.
 					late.Add(1)
 				case qerr != nil:
+					// The DNS library could not parse what came back.
 					malformed.Add(1)
 					malformedMu.Lock()
 					if len(malformedW) < 5 {
